@@ -37,6 +37,7 @@ Record hinv (D : list positive) (h : heap) : Prop := mk_hinv {
                       findw h x = Some cx /\ w_parent cx = Some p /\ anc h x root);
   hi_drag : r_drag (rx h) = Some None;
   hi_nextw : forall a, findw h a <> None -> (a < nextw h)%positive;
+  hi_nextw_root : (root < nextw h)%positive;
   hi_nextq : forall q, findq h q <> None -> (q < nextq h)%positive
 }.
 
@@ -105,7 +106,7 @@ Proof.
     - eapply anc_step; eauto. rewrite Fw. eassumption. }
   assert (Qc : forall p l, qchain h p l -> qchain h' p l).
   { intros p l Hc. induction Hc; econstructor; eauto. rewrite Fq. eassumption. }
-  destruct HI as [K P PL O F R C I RP Q Dg NW NQ].
+  destruct HI as [K P PL O F R C I RP Q Dg NW NWR NQ].
   constructor.
   - intros a c Hf. rewrite Fw in Hf. destruct (K a c Hf) as [l [Hc Hl]]. exists l. split; auto.
     intro k. rewrite (Hl k). split; intros [ck [H1 H2]]; exists ck; split; auto; [rewrite Fw|rewrite <- Fw]; auto.
@@ -123,5 +124,6 @@ Proof.
       exists x, p, cx. rewrite Fw. auto 10.
   - rewrite Hr. exact Dg.
   - intros a Ha. rewrite Fw in Ha. rewrite Hnw. auto.
+  - rewrite Hnw. exact NWR.
   - intros q Hq'. rewrite Fq in Hq'. rewrite Hnq. auto.
 Qed.
